@@ -42,6 +42,7 @@ def check(ctx):
         r13_2(ctx, m, L)
         r13_3(ctx, m, L)
         r13_4(ctx, m, L)
+    ctx.run(r13_5, m, _independent=True)
     # helpers
     ctx.not_decided += [
         "a worker dying while it holds the result queue's internal write lock (the surviving workers then block inside multiprocessing)",
@@ -250,3 +251,44 @@ def r13_4(ctx, m, L):
         ctx.violated("R13.4", L.where(), what + " (exit codes are not tested after the loop)", key_of(pf, f"post-join-exitcodes:{norm(L.node.test)}"))
     else:
         ctx.check(bad is None, "R13.4", L.where(), what, key_of(pf, f"post-join-exit:{norm(L.node.test)}:{bad[1] if bad else ''}"), **({"path": bad[0].show(), "why": bad[1]} if bad else {}))
+
+
+def r13_5(ctx, m):
+    """A worker that fails must not look like one that finished: in the function a worker process runs (and what it calls in its
+    module) no handler for Exception / BaseException / everything carries on without re-raising or exiting non-zero, and the
+    sentinel is not put in a `finally` (it would be delivered for a batch that was not completed, the process then exits 0, and
+    the parent sees one sentinel per worker and exit code 0 everywhere)."""
+    repo = ctx.repo
+    wf = m.worker
+    mod = wf.module
+    todo, seen = [mod.funcs.get(wf.qualname, wf)], set()
+    funcs = []
+    while todo:
+        f = todo.pop()
+        if f.qualname in seen:
+            continue
+        seen.add(f.qualname)
+        funcs.append(f)
+        for c in walk_own(f.node):
+            if isinstance(c, ast.Call):
+                h = repo.resolve_call(f, c)
+                if h is not None and h.module is mod and h.qualname not in seen and len(seen) < 8:
+                    todo.append(h)
+    n = 0
+    for f in funcs:
+        for t in walk_own(f.node):
+            if not isinstance(t, ast.Try):
+                continue
+            for h in t.handlers:
+                broad = h.type is None or norm(h.type) in ("Exception", "BaseException") or (isinstance(h.type, ast.Tuple) and any(norm(x) in ("Exception", "BaseException") for x in h.type.elts))
+                leaves = any(isinstance(x, ast.Raise) for x in ast.walk(h)) or any(isinstance(x, ast.Call) and norm(x.func) in ("sys.exit", "exit", "os._exit") and x.args and const_value(x.args[0], 1) != 0 for x in ast.walk(h))
+                if broad and not leaves:
+                    n += 1
+                    ctx.violated("R13.5", f.where(t), f"the worker catches `{norm(h.type) if h.type is not None else 'everything'}` and carries on: a batch that failed half-way (MemoryError, a bug in a record) ends with exit code 0, so the parent takes the run for complete although records are missing", key_of(f, f"worker-swallows:{norm(h.type) if h.type is not None else 'bare'}"))
+            for st in t.finalbody:
+                for c in ast.walk(st):
+                    if isinstance(c, ast.Call) and isinstance(c.func, ast.Attribute) and c.func.attr == "put" and c.args and isinstance(c.args[0], ast.Constant) and c.args[0].value is None:
+                        n += 1
+                        ctx.violated("R13.5", f.where(c), "the sentinel is put in a `finally`: it is delivered also when the batch was not completed, so the parent counts the worker as finished", key_of(f, "sentinel-in-finally"))
+    if n == 0:
+        ctx.holds("R13.5", wf.where(), f"no broad exception handler that carries on and no sentinel in a `finally` in the worker and its helpers ({len(funcs)} function(s))", nontrivial=False)
